@@ -275,7 +275,7 @@ pub fn class(r: &mut Rng, cfg: &Cfg, st: &mut Stats) -> GClass {
 		if r.chance(1, 5) {
 			st.hit("attr:Record");
 			g.records = (0..r.range(1, 3)).map(|_| GRecord { name: ident(r, cfg), desc: field_desc(r, cfg), signature: if r.chance(1, 3) { Some(text(r, cfg)) } else { None },
-				rva: annos_no_nan(r, cfg), ria: vec![], rvta: vec![], rita: vec![], attrs: unknown_attrs(r, st) }).collect();
+				rva: annos_no_nan(r, cfg), ria: annos_no_nan(r, cfg), rvta: type_annos_no_nan(r, cfg, st), rita: type_annos_no_nan(r, cfg, st), attrs: unknown_attrs(r, st) }).collect();
 		}
 		if r.chance(1, 8) {
 			st.hit("attr:Module");
@@ -317,18 +317,28 @@ pub fn class(r: &mut Rng, cfg: &Cfg, st: &mut Stats) -> GClass {
 	g
 }
 
+fn clean_nan(e: &mut GElem) {
+	match e {
+		GElem::Const(b'F', v) => { let f = f32::from_bits(*v as u32); if f.is_nan() { *v = f32::NAN.to_bits() as i64; } }
+		GElem::Const(b'D', v) => { let f = f64::from_bits(*v as u64); if f.is_nan() { *v = f64::NAN.to_bits() as i64; } }
+		GElem::Anno(a) => for (_, x) in &mut a.pairs { clean_nan(x); },
+		GElem::Arr(v) => for x in v { clean_nan(x); },
+		_ => {}
+	}
+}
+
+/// type annotations of a record component (target: field), float payloads canonical like `annos_no_nan`
+fn type_annos_no_nan(r: &mut Rng, cfg: &Cfg, st: &mut Stats) -> Vec<GTypeAnno> {
+	let mut v = type_annos(r, cfg, st, 1, 0);
+	for t in &mut v { for (_, x) in &mut t.anno.pairs { clean_nan(x); } }
+	if !v.is_empty() { st.hit("attr:type-annotations:record-component"); }
+	v
+}
+
 /// record component annotations are projected through `Debug`, which prints every NaN as `NaN`: keep float payloads canonical there
 fn annos_no_nan(r: &mut Rng, cfg: &Cfg) -> Vec<GAnno> {
 	if !cfg.annotations || !r.chance(1, 2) { return vec![]; }
-	fn clean(e: &mut GElem) {
-		match e {
-			GElem::Const(b'F', v) => { let f = f32::from_bits(*v as u32); if f.is_nan() { *v = f32::NAN.to_bits() as i64; } }
-			GElem::Const(b'D', v) => { let f = f64::from_bits(*v as u64); if f.is_nan() { *v = f64::NAN.to_bits() as i64; } }
-			GElem::Anno(a) => for (_, x) in &mut a.pairs { clean(x); },
-			GElem::Arr(v) => for x in v { clean(x); },
-			_ => {}
-		}
-	}
+	use clean_nan as clean;
 	let mut v: Vec<GAnno> = (0..r.range(1, 2)).map(|_| anno(r, cfg, 1)).collect();
 	for a in &mut v { for (_, x) in &mut a.pairs { clean(x); } }
 	v
